@@ -514,7 +514,7 @@ func (p *pushProp) run(rc *RunCtx, pp *PushParams, info *RunInfo) *Verdict {
 		if !isOCI {
 			return nil
 		}
-		if d := checkLayoutBlobsOnly(dir); d != "" {
+		if d := checkLayoutBlobsOnly(dir, false); d != "" {
 			return violation("bad-content-visible", "", "%s: %s", when, d)
 		}
 		return nil
